@@ -315,7 +315,7 @@ Definition has_arg (e : expr) : bool := existsb is_argp (terms e).
 Definition has_arg_c (c : cond) : bool := existsb is_argp (cterms c).
 
 Inductive hkind := H_terminal | H_argument | H_nonlinear | H_sum | H_division | H_product
-                 | H_inner | H_outer | H_linear | H_conj | H_variable | H_conditional
+                 | H_inner | H_outer | H_dot | H_linear | H_conj | H_variable | H_conditional
                  | H_indexed | H_list_tensor.
 
 (* node classes: the concrete UFL classes that the serializer maps to a constructor of [expr]
@@ -339,7 +339,8 @@ Definition class_handler (c : cls) : hkind :=
   | C_Sum => H_sum
   | C_Product => H_product
   | C_Division => H_division
-  | C_Inner | C_Dot => H_inner
+  | C_Inner => H_inner
+  | C_Dot => H_dot
   | C_Outer => H_outer
   | C_Conj => H_conj
   | C_Variable => H_variable
@@ -411,11 +412,14 @@ Definition h_conditional (t f : expr) (a b : ar) : res :=
   if nonempty a && is_zero f then OK a
   else if nonempty b && is_zero t then OK b
   else if aeqb a b then OK a else Err.
-Definition h_list_tensor (ops : list ar) : res :=
+(* list_tensor (after the fix "components without arguments must be Zero nodes"): [es] are the operands *)
+Definition bad_component (p : expr * ar) : bool := negb (nonempty (snd p)) && negb (is_zero (fst p)).
+Definition h_list_tensor (es : list expr) (ops : list ar) : res :=
   let args := fold_right a_union [] ops in
   match args with
   | [] => OK []
-  | _ => if all_equal (filter nonempty (map nums ops)) then OK args else Err
+  | _ => if existsb bad_component (combine es ops) then Err
+         else if all_equal (filter nonempty (map nums ops)) then OK args else Err
   end.
 
 Fixpoint all_ok (rs : list res) : option (list ar) :=
@@ -440,6 +444,7 @@ Definition apply_handler (h : hkind) (e : expr) (rs : list res) : res :=
       | H_division, [a; b] => h_division a b
       | H_inner, [a; b] => h_product a (a_conj b)
       | H_outer, [a; b] => h_product (a_conj a) b
+      | H_dot, [a; b] => h_product a b
       | H_linear, [a] | H_variable, [a] | H_indexed, [a] => OK a
       | H_conj, [a] => OK (a_conj a)
       | H_conditional, [a; b] =>
@@ -447,7 +452,7 @@ Definition apply_handler (h : hkind) (e : expr) (rs : list res) : res :=
           | Conditional c t f => if has_arg_c c then Err else h_conditional t f a b
           | _ => Err
           end
-      | H_list_tensor, _ => h_list_tensor l
+      | H_list_tensor, _ => h_list_tensor (asubs e) l
       | _, _ => Err
       end
     end
